@@ -48,70 +48,75 @@ TInit ==
   /\ tid \in 1..Len(Traces)
   /\ l = 1
   /\ mem = Empty /\ db = EmptyDb /\ proc = "running" /\ lastW = Empty
-  /\ started = FALSE /\ cycleReq = FALSE /\ wired = {} /\ picked = {} /\ busy = {} /\ failq = {} /\ held = {}
+  /\ started = FALSE /\ cycleReq = FALSE /\ wired = {} /\ picked = {} /\ busy = {} /\ failq = {} /\ held = {} /\ told = {}
   /\ act = "Init" /\ nops = 0 /\ lives = 0
 
 IsEv(e) == l <= Len(T) /\ Rec.ev = e
+\* every record carries reports = the state-change reports application listeners (one attached per
+\* transfer when its TransferAddedEvent was seen) received during the event: [l, t, cur]
+Reported == {Rec.reports[i] : i \in DOMAIN Rec.reports}
 Consume == l' = l + 1 /\ UNCHANGED tid
+\* what was reported is what the step of the model reports, each report once
+ReportsAgree == told' = Reported /\ Len(Rec.reports) = Cardinality(Reported)
 
 \* cache.read() returned exactly the entries of the file, as unpickling shows them
 ReadBackAgrees(L, d) ==
   /\ Len(L) = DbCount(d)
   /\ {L[i] : i \in DOMAIN L} = {ReadOf(r) : r \in RecsOf(d)}
 
-TAdd == IsEv("add") /\ NoDup(Rec.mem) /\ AddTo(Rec.k, Logged) /\ Consume
+TAdd == IsEv("add") /\ NoDup(Rec.mem) /\ AddTo(Rec.k, Logged) /\ ReportsAgree /\ Consume
 
 TMutate ==
   /\ IsEv("mutate") /\ NoDup(Rec.mem)
   /\ Rec.k \in DOMAIN Logged /\ DOMAIN Logged = DOMAIN mem
   /\ \A x \in DOMAIN mem \ {Rec.k} : Logged[x] = mem[x]
   /\ MutateTo(Rec.k, Rec.op, Logged[Rec.k])
-  /\ Consume
+  /\ ReportsAgree /\ Consume
 
 TSetData ==
   /\ IsEv("setdata") /\ NoDup(Rec.mem)
   /\ Rec.k \in DOMAIN Logged /\ DOMAIN Logged = DOMAIN mem
   /\ \A x \in DOMAIN mem \ {Rec.k} : Logged[x] = mem[x]
   /\ SetDataTo(Rec.k, Logged[Rec.k])
-  /\ Consume
+  /\ ReportsAgree /\ Consume
 
-TRemove == IsEv("remove") /\ NoDup(Rec.mem) /\ Remove(Rec.k) /\ Logged = mem' /\ Consume
+TRemove == IsEv("remove") /\ NoDup(Rec.mem) /\ Remove(Rec.k) /\ Logged = mem' /\ ReportsAgree /\ Consume
 
 TWrite ==
   /\ IsEv("write") /\ NoDup(Rec.mem) /\ Logged = mem
   /\ Write
   /\ ReadBackAgrees(Rec.readback, db')
-  /\ Consume
+  /\ ReportsAgree /\ Consume
 
 TStopWrite ==
   /\ IsEv("stopwrite") /\ NoDup(Rec.mem)
   /\ StopWriteOf(Logged)
   /\ ReadBackAgrees(Rec.readback, db')
-  /\ Consume
+  /\ ReportsAgree /\ Consume
 
 TOldWrite ==
   /\ IsEv("oldwrite") /\ NoDup(Rec.mem) /\ Logged = mem
   /\ OldVersionWrite(Rec.fmt)
   /\ ReadBackAgrees(Rec.readback, db')
-  /\ Consume
+  /\ ReportsAgree /\ Consume
 
-TCrash == IsEv("crash") /\ Crash /\ Consume
+TCrash == IsEv("crash") /\ Crash /\ ReportsAgree /\ Consume
 
 \* "each exactly once": the loaded list has no two transfers with one key
-TRestart == IsEv("restart") /\ NoDup(Rec.mem) /\ RestartTo(Logged) /\ Consume
+TRestart == IsEv("restart") /\ NoDup(Rec.mem) /\ RestartTo(Logged) /\ ReportsAgree /\ Consume
 
 \* the harness makes queue requests to user u (un)deliverable
-TPeerDown == IsEv("peerdown") /\ PeerDown(Rec.u) /\ Consume
-TPeerUp == IsEv("peerup") /\ PeerUp(Rec.u) /\ Consume
+TPeerDown == IsEv("peerdown") /\ PeerDown(Rec.u) /\ ReportsAgree /\ Consume
+TPeerUp == IsEv("peerup") /\ PeerUp(Rec.u) /\ ReportsAgree /\ Consume
 
-TStart == IsEv("start") /\ Logged = mem /\ StartMgr /\ Consume
+TStart == IsEv("start") /\ Logged = mem /\ StartMgr /\ ReportsAgree /\ Consume
 
 TQuiesce ==
   /\ IsEv("quiesce")
   /\ LET P == {Rec.sent[i] : i \in DOMAIN Rec.sent} IN
        IF cycleReq /\ started
-       THEN NoDup(Rec.mem) /\ CycleTo(P, Logged)
-       ELSE P = {} /\ Logged = mem /\ UNCHANGED vars
+       THEN NoDup(Rec.mem) /\ CycleTo(P, Logged, Reported)
+       ELSE P = {} /\ Logged = mem /\ Rec.reports = <<>> /\ UNCHANGED vars
   /\ Consume
 
 Done ==
